@@ -324,7 +324,7 @@ func runC17(c *harness.Ctx) {
 					p := []time.Duration{0, 0, 100 * time.Millisecond, time.Second}[t.Draw("ppause", 4)]
 					if spent+p < 4*time.Second {
 						spent += p
-						time.Sleep(p)
+						c.S.Sleep(p)
 					}
 				}
 			}
@@ -344,7 +344,7 @@ func runC17(c *harness.Ctx) {
 			}
 			if i == cutStage && malformed == "silence" {
 				send(m[:cutAt])
-				time.Sleep(6 * time.Second)
+				c.S.Sleep(6 * time.Second)
 				readN(16)
 				return
 			}
